@@ -17,11 +17,11 @@ ASSUMPTIONS = [
     "points of the symbolic range and additionally get a dedicated instance each",
 ]
 BOUNDS = {
-    "quick": "shapes 1x1x1, 1x1x2, 1x2x1 both directions, 2x(1x1) consume; exponent 1; boundary instances on 2x(1x1)",
+    "quick": "shapes 1x1x1, 1x1x2, 1x2x1 both directions, 2x(1x1) consume; exponent 1 (exponents 0 and 2 for 1 group); boundary instances on 2x(1x1)",
     "thorough": "quick + supply for 2 groups, exponents 0/2, mixed shapes and 3 groups budgeted",
 }
 OUTSIDE = "more groups/batteries/inverters than listed; non-integer exponents; IEEE rounding"
-BUDGET = {"quick": 900, "thorough": 3600}
+BUDGET = {"quick": 900, "thorough": 1800}
 
 
 KF_SPLIT = "C02-multi-inverter-greedy-split"
@@ -98,6 +98,10 @@ def instances(tier):
         I("reach:1x1x1", "make", (s11, 1.0, 1, None, True), "reachability twin", budget_s=60, incremental=False, validate_every=0),
         I("1x1x1+", "make", (s11, 1.0, 1), "1 group, 1 battery, 1 inverter, consume", budget_s=120, **kw),
         I("1x1x1-", "make", (s11, 1.0, -1), "same, supply", budget_s=120, **kw),
+        I("1x1x1+e0", "make", (s11, 0.0, 1), "same, distributor exponent 0", budget_s=120, **kw),
+        I("1x1x1-e0", "make", (s11, 0.0, -1), "same, supply, distributor exponent 0", budget_s=120, **kw),
+        I("1x1x1+e2", "make", (s11, 2.0, 1), "same, distributor exponent 2", budget_s=120, **kw),
+        I("1x2x1+e0", "make", (s21, 0.0, 1), "2 batteries behind 1 inverter, exponent 0", budget_s=200, **kw),
         I("1x1x2+", "make", (s12, 1.0, 1), "1 battery behind 2 inverters, consume", budget_s=200, **kw),
         I("1x1x2-", "make", (s12, 1.0, -1), "1 battery behind 2 inverters, supply", budget_s=200, **kw),
         I("1x2x1+", "make", (s21, 1.0, 1), "2 batteries behind 1 inverter, consume", budget_s=200, **kw),
@@ -110,15 +114,15 @@ def instances(tier):
     kw["dump_queries"] = 10
     out += [
         I("3x(1x1)+wide@excl", "make", (((1, 1),) * 3, 1.0, 1, "excl", False, True), "3 groups, request exactly the advertised exclusion bound; batteries' own limits concrete "
-          "and non-binding, SoC and inverter bounds symbolic (budgeted)", budget_s=900, exhaustive=False, **kw),
-        I("3x(1x1)+wide", "make", (((1, 1),) * 3, 1.0, 1, None, False, True), "3 groups, any admitted request; same restriction (budgeted)", budget_s=900, exhaustive=False, **kw),
+          "and non-binding, SoC and inverter bounds symbolic (budgeted)", budget_s=200, exhaustive=False, **kw),
+        I("3x(1x1)+wide", "make", (((1, 1),) * 3, 1.0, 1, None, False, True), "3 groups, any admitted request; same restriction (budgeted)", budget_s=200, exhaustive=False, **kw),
     ] + [
-        I("1x2x1-", "make", (s21, 1.0, -1), "2 batteries behind 1 inverter, supply", budget_s=300, **kw),
-        I("2x(1x1)-", "make", (g2, 1.0, -1), "2 groups, supply", budget_s=900, **kw),
-        I("2x(1x1)+e0", "make", (g2, 0.0, 1), "2 groups, exponent 0", budget_s=900, **kw),
-        I("2x(1x1)+e2", "make", (g2, 2.0, 1), "2 groups, exponent 2", budget_s=900, exhaustive=False, **kw),
-        I("(1x1|1x2)+", "make", (((1, 1), (1, 2)), 1.0, 1), "mixed shapes (budgeted)", budget_s=900, exhaustive=False, **kw),
-        I("(2x1|1x1)+", "make", (((2, 1), (1, 1)), 1.0, 1), "mixed shapes (budgeted)", budget_s=900, exhaustive=False, **kw),
-        I("3x(1x1)+", "make", (((1, 1), (1, 1), (1, 1)), 1.0, 1), "3 groups (budgeted)", budget_s=900, exhaustive=False, **kw),
+        I("1x2x1-", "make", (s21, 1.0, -1), "2 batteries behind 1 inverter, supply", budget_s=200, **kw),
+        I("2x(1x1)-", "make", (g2, 1.0, -1), "2 groups, supply", budget_s=400, **kw),
+        I("2x(1x1)+e0", "make", (g2, 0.0, 1), "2 groups, exponent 0", budget_s=300, **kw),
+        I("2x(1x1)+e2", "make", (g2, 2.0, 1), "2 groups, exponent 2", budget_s=250, exhaustive=False, **kw),
+        I("(1x1|1x2)+", "make", (((1, 1), (1, 2)), 1.0, 1), "mixed shapes (budgeted)", budget_s=200, exhaustive=False, **kw),
+        I("(2x1|1x1)+", "make", (((2, 1), (1, 1)), 1.0, 1), "mixed shapes (budgeted)", budget_s=200, exhaustive=False, **kw),
+        I("3x(1x1)+", "make", (((1, 1), (1, 1), (1, 1)), 1.0, 1), "3 groups (budgeted)", budget_s=250, exhaustive=False, **kw),
     ]
     return out
